@@ -131,6 +131,18 @@ class PySnmpCodeGen(IntermediateCodeGen):
 
         translateOids(context)
 
+        # Named bits DEFVALs become the BITS octets pysnmp understands
+
+        for definition in context.values():
+            default = definition.get('default')
+            default = isinstance(default, dict) and default.get('default')
+            if default and default.get('format') == 'bits':
+                positions = list(default['value']['bits'].values())
+                octets = bytearray(positions and max(positions) // 8 + 1 or 0)
+                for position in positions:
+                    octets[position // 8] |= 0x80 >> (position % 8)
+                default['hexvalue'] = ''.join('%02x' % octet for octet in octets)
+
         # Translate SMI types into pysnmp class names
 
         # Sort Managed Objects by OID
